@@ -98,7 +98,8 @@ FamTrivia3(lz) == {TrG(x, "", "", "", cfg) : x \in TrT3(0) \ TrT2(0), cfg \in {"
 \* every modifier triple x a spanning set of bodies x two trivia configs
 ModBodies(lz) == {Ref("s"), SeqE(<<Str(<<a>>), Ref("s")>>), SeqE(<<Ref("s"), Str(<<a>>)>>), Star(Ref("s")), Plus(Str(<<a>>)),
               SeqE(<<Ref("s"), Eoi>>), MaxR(Ref("s"), 2), SeqE(<<Str(<<a>>), Star(Str(<<a>>))>>), AltE(<<Ref("u"), Ref("s")>>),
-              SeqE(<<Ref("u"), Ref("WHITESPACE"), Ref("u")>>)}
+              SeqE(<<Ref("u"), Ref("WHITESPACE"), Ref("u")>>), SeqE(<<Ref("s"), Ref("u")>>), SeqE(<<Ref("s"), Ref("u"), Ref("s")>>),
+              Star(AltE(<<Ref("s"), Ref("u")>>))}
 FamMods(lz) == {TrG(x, m0, m1, m2, cfg) : x \in ModBodies(0), m0 \in Mods, m1 \in Mods, m2 \in Mods, cfg \in {"WS", "ws+cm"}}
 
 \* ---- family "stack": C05 ------------------------------------------------------
@@ -162,8 +163,9 @@ FamTags(lz) == {TagG(x, ws) : x \in TagT2(0) \cup TagT3(0), ws \in BOOLEAN}
 \* ---- family "opt": C02, aimed at each optimizer pass ---------------------------------
 \*   r = m{ BODY }   q = qm{ "b" | "ab" }   s = { "a" ~ "b"? }    + trivia per config
 \* squash_choice: choices of literals / insensitive literals / ranges / classes, every order, shared prefixes
-SqAtoms  == {Str(<<a>>), Str(<<b>>), Str(<<a, b>>), Str(<<b, a>>), IStr(<<a>>), IStr(<<a, b>>), Rng(a, b), Cls("ASCII_ALPHA_UPPER"), Ref("q")}
-SqAtomsS == {Str(<<a>>), Str(<<a, b>>), IStr(<<b>>), Rng(a, a)}
+SqAtoms  == {Str(<<a>>), Str(<<b>>), Str(<<a, b>>), Str(<<b, a>>), IStr(<<a>>), IStr(<<a, b>>), IStr(<<a, b, a>>), Str(<<a, b, a>>), Rng(a, b),
+             Cls("ASCII_ALPHA_UPPER"), Ref("q")}
+SqAtomsS == {Str(<<a>>), Str(<<a, b>>), IStr(<<b>>), Rng(a, a), IStr(<<a, b, a>>)}
 SqChoices(lz) == {AltE(<<x, y>>) : x \in SqAtoms, y \in SqAtoms} \cup {AltE(<<x, y, z>>) : x \in SqAtomsS, y \in SqAtomsS, z \in SqAtomsS}
              \cup {AltE(<<x, AltE(<<y, z>>)>>) : x \in SqAtomsS, y \in SqAtomsS, z \in {Str(<<b>>), Ref("q")}}
 SqBodies(lz) == UNION {{ch, SeqE(<<ch, Str(<<b>>)>>), SeqE(<<ch, Eoi>>), Star(ch), SeqE(<<Plus(ch), Str(<<a>>)>>)} : ch \in SqChoices(0)}
